@@ -5,10 +5,20 @@ use crate::hist::{history_brief, history_strategy, History, World};
 use crate::model::{txid32, H32};
 use bitcoin::hashes::Hash;
 use ic_btc_canister as can;
-use proptest::strategy::{BoxedStrategy, Strategy};
+use proptest::strategy::BoxedStrategy;
 use std::collections::BTreeMap;
 
 pub struct C20;
+
+/// Either a history of the direct driver (no announced headers), or a scenario of C14's direct
+/// driver, which announces headers through `insert_next_block_headers`, delivers their blocks
+/// later or leaves them stale. Untagged: a serialised `History` is a serialised `Case20`.
+#[derive(Clone, Debug, serde::Serialize, serde::Deserialize)]
+#[serde(untagged)]
+pub enum Case20 {
+    Hist(History),
+    Announcing(super::c14::Direct14),
+}
 
 fn h(b: &ic_btc_types::BlockHash) -> H32 {
     let mut a = [0u8; 32];
@@ -117,16 +127,44 @@ pub fn check_bookkeeping(w: &mut World, i: usize, out: &mut Outcome) {
     }
 }
 
+/// The announced headers held by the canister must be exactly those the model says are still
+/// needed: announced, valid, connected when announced, block not arrived, above the stable height.
+fn check_announced(announced: &super::c14::Announced, i: usize, out: &mut Outcome) {
+    out.checks += 1;
+    let snap = can::with_state(|s| s.unstable_blocks.verif_bookkeeping());
+    let mut got: Vec<(H32, u32)> = snap.next_headers.iter().map(|(hash, height)| (h(hash), *height)).collect();
+    got.sort();
+    let mut want: Vec<(H32, u32)> = announced.iter().map(|(hash, (height, _))| (*hash, *height)).collect();
+    want.sort();
+    if got != want {
+        let missing = want.iter().filter(|x| !got.contains(x)).count();
+        let extra = got.iter().filter(|x| !want.contains(x)).count();
+        out.fail(format!(
+            "event {i}: announced headers held: {} (heights {:?}); still needed (announced, block not arrived, above the stable height): {} (heights {:?}): {missing} missing, {extra} not needed",
+            got.len(), got.iter().map(|x| x.1).collect::<Vec<_>>(), want.len(), want.iter().map(|x| x.1).collect::<Vec<_>>()
+        ));
+    }
+    if !want.is_empty() {
+        out.class("announced_headers_held");
+    }
+}
+
 impl Property for C20 {
-    type Case = History;
+    type Case = Case20;
     fn id(&self) -> &'static str {
         "C20"
     }
-    fn strategy(&self, tier: Tier) -> BoxedStrategy<History> {
-        match tier {
-            Tier::Quick => history_strategy(26, 3, true, true).boxed(),
-            Tier::Thorough => history_strategy(50, 4, true, true).boxed(),
-        }
+    fn strategy(&self, tier: Tier) -> BoxedStrategy<Case20> {
+        use proptest::prelude::*;
+        let (ops, evs) = match tier {
+            Tier::Quick => (26, 36),
+            Tier::Thorough => (50, 70),
+        };
+        prop_oneof![
+            3 => history_strategy(ops, if tier == Tier::Quick { 3 } else { 4 }, true, true).prop_map(Case20::Hist),
+            1 => super::c14::direct_strategy(evs).prop_map(Case20::Announcing),
+        ]
+        .boxed()
     }
     fn cases(&self, tier: Tier) -> u32 {
         match tier {
@@ -135,19 +173,51 @@ impl Property for C20 {
         }
     }
     fn rule(&self) -> String {
-        "Histories as in C01 (forks discarded at different depths, transactions shared between forks, outputs spent across forks, upgrades); after every operation the hook's abstract snapshot must equal what is recomputed from the live tree: block-cache keys = added-map keys = removed-map keys = live hashes, per-block difficulty and parent, tx-out entries = exactly the outpoints that live blocks create or spend with count = number of references, cached tip depths = leaf depths (multiset), no announced header for a live block or at/below the stable height; and every later operation and query of the history runs without a trap (all endpoints are exercised after every step). Non-trivial: a step that discards >= 2 blocks, or discards a block that shares a transaction or spends an output also referenced by the surviving chain; distinct = tree-shape hashes before the discard.".into()
+        "Three in four cases: histories as in C01 (forks discarded at different depths, transactions shared between forks, outputs spent across forks, upgrades); after every operation the hook's abstract snapshot must equal what is recomputed from the live tree: block-cache keys = added-map keys = removed-map keys = live hashes, per-block difficulty and parent, tx-out entries = exactly the outpoints that live blocks create or spend with count = number of references, cached tip depths = leaf depths (multiset), no announced header for a live block or at/below the stable height; and every later operation and query of the history runs without a trap (all endpoints are exercised after every step). One in four cases: C14's direct-driver scenarios on regtest (headers of 1..4 chained blocks announced through insert_next_block_headers on any live block, their blocks delivered later in any order or never, competing forks, anchor advances): after every event the same snapshot checks, and the announced headers held must be exactly the announced ones whose block has not arrived and whose height is above the stable height (none dropped early, none kept late). Non-trivial: a step that discards >= 2 blocks, or discards a block that shares a transaction or spends an output also referenced by the surviving chain; or an event after which announced headers are held; distinct = tree-shape hashes before the discard / (tree shape, announced heights).".into()
     }
-    fn brief(&self, case: &History) -> serde_json::Value {
-        history_brief(case)
+    fn brief(&self, case: &Case20) -> serde_json::Value {
+        match case {
+            Case20::Hist(h) => history_brief(h),
+            Case20::Announcing(d) => serde_json::json!({"announcing_scenario": {"threshold": d.threshold, "diff_mode": format!("{:?}", d.diff_mode), "events": d.evs.len()}}),
+        }
     }
     fn required_classes(&self, _tier: Tier) -> Vec<&'static str> {
-        vec!["discard_ge_2_blocks", "discard_with_shared_reference", "step_upgrade", "step_shared_tx", "shared_tx_and_its_spender_in_one_block"]
+        vec!["discard_ge_2_blocks", "discard_with_shared_reference", "step_upgrade", "step_shared_tx", "shared_tx_and_its_spender_in_one_block", "announced_headers_held", "announced_header_dropped_by_stable_height", "announced_block_delivered"]
     }
     fn fuzz_sequences(&self) -> Vec<(&'static str, usize)> {
-        vec![("/ops", 50)]
+        vec![("/ops", 50), ("/evs", 70)]
     }
-    fn run(&self, case: &History) -> Outcome {
+    fn run(&self, case: &Case20) -> Outcome {
         let mut out = Outcome::default();
+        let case = match case {
+            Case20::Hist(h) => h,
+            Case20::Announcing(d) => {
+                out.class("announcing_scenario");
+                // the access flags are C14's subject: here every endpoint must stay callable so
+                // that the readers of the caches are exercised after every event
+                let mut d = d.clone();
+                d.api = true;
+                d.sync = false;
+                d.evs.retain(|e| !matches!(e, super::c14::EvD::SetFlags { .. }));
+                let d = &d;
+                let mut fee_tip = None;
+                let mut nontrivial: Vec<u64> = vec![];
+                super::c14::run_direct_with(d, false, &mut out, &mut |w, announced, i, out| {
+                    check_bookkeeping(w, i, out);
+                    check_announced(announced, i, out);
+                    // "no later step fails on a missing entry": the readers of the caches
+                    super::c02::check_tip_agreement(w, i, out, &mut fee_tip);
+                    if !announced.is_empty() {
+                        let hs: Vec<u32> = announced.values().map(|(h, _)| *h).collect();
+                        nontrivial.push(crate::engine::fnv(format!("{}-{:?}-{}", shape(w, &[]), hs, w.model.anchor_height()).as_bytes()));
+                    }
+                });
+                for n in nontrivial {
+                    out.nontrivial(n);
+                }
+                return out;
+            }
+        };
         let mut w = World::new(&case.cfg);
         history_classes(case, &mut out);
         let mut fee_tip = None;
